@@ -84,6 +84,10 @@ pub enum Step {
     Deliver(usize),
     /// Deliver as much as the caller offers.
     Fill,
+    /// Deliver as much as the caller offers, but nothing at or beyond absolute offset `p`: the
+    /// step stays current until exactly `p` bytes were delivered, so that a read boundary falls
+    /// at `p` whatever the chunk size is.
+    Until(usize),
     /// `Err(ErrorKind::Interrupted)`, nothing delivered.
     Interrupted,
     /// An EINTR storm: the next `n` calls all return `Err(ErrorKind::Interrupted)` (a retry limit,
@@ -129,7 +133,9 @@ impl SourceCfg {
     }
     /// A cyclic plan without any delivering step would make every (correct) retry loop spin forever.
     pub fn live(&self) -> bool {
-        !self.cycle || self.steps.is_empty() || self.steps.iter().any(|s| matches!(s, Step::Deliver(_) | Step::Fill | Step::Overreport(..)))
+        !self.cycle
+            || self.steps.is_empty()
+            || self.steps.iter().any(|s| matches!(s, Step::Deliver(_) | Step::Fill | Step::Until(_) | Step::Overreport(..)))
     }
     pub fn one_shot() -> Self {
         SourceCfg {
@@ -284,6 +290,12 @@ impl Read for SimSource {
             res = CallRes::Ok(n);
             ret = Ok(n);
         } else {
+            // (an `Until` whose offset was already reached is passed over; never in cyclic plans)
+            while !st.cfg.cycle
+                && matches!(st.cfg.steps.get(st.step_idx), Some(Step::Until(p)) if *p <= st.pos)
+            {
+                st.step_idx += 1;
+            }
             let step = if st.cfg.steps.is_empty() {
                 Step::Fill
             } else if st.step_idx < st.cfg.steps.len() {
@@ -331,9 +343,15 @@ impl Read for SimSource {
                     res = CallRes::Ok(claimed);
                     ret = Ok(claimed);
                 }
-                Step::Deliver(_) | Step::Fill => {
+                Step::Deliver(_) | Step::Fill | Step::Until(_) => {
                     let want = match step {
                         Step::Deliver(n) => n.max(1),
+                        Step::Until(p) if p > st.pos => {
+                            if p - st.pos > offered && !st.cfg.cycle {
+                                st.step_idx -= 1; // not there yet: stay on this step
+                            }
+                            p - st.pos
+                        }
                         _ => usize::MAX,
                     };
                     if offered == 0 {
@@ -477,7 +495,9 @@ pub fn gen_plan(rng: &mut Rng, len: usize, cuts: &[usize], interrupts: u8) -> So
             let mut prev = 0;
             for p in positions {
                 if p > prev {
-                    steps.push(Step::Deliver(p - prev));
+                    // (exact for every chunk size: `Deliver(p - prev)` would only cut at p if the
+                    // caller offered at least p - prev bytes in one call)
+                    steps.push(Step::Until(p));
                     prev = p;
                 }
             }
@@ -538,6 +558,7 @@ pub fn step_to_string(s: &Step) -> String {
     match s {
         Step::Deliver(n) => format!("d{n}"),
         Step::Fill => "f".to_string(),
+        Step::Until(p) => format!("u{p}"),
         Step::Interrupted => "i".to_string(),
         Step::Storm(n) => format!("s{n}"),
         Step::Lie(n) => format!("l{n}"),
@@ -551,6 +572,7 @@ pub fn step_from_str(s: &str) -> Option<Step> {
     Some(match h {
         "d" => Step::Deliver(t.parse().ok()?),
         "f" => Step::Fill,
+        "u" => Step::Until(t.parse().ok()?),
         "i" => Step::Interrupted,
         "s" => Step::Storm(t.parse().ok()?),
         "l" => Step::Lie(t.parse().ok()?),
